@@ -13,11 +13,14 @@ from ..util import (has_call, find_calls, assigned_value, const_str, unparse, kw
 from .. import mutate as M
 from . import c04
 
+TECHNIQUE = 'static analysis: boundary rules on selection predicates (closed/open ends), rng-lifetime + freshness rules, replay-buffer typestate, key-order preservation rule for Sort, peek-size proof obligation'
+
 EXPLANATION = ("Rules over Shuffle/Take/Slice/Reservoir/Where/Sort/Riffle/Chunk/Params/Identity/Cache/Batch/Unbatch: "
                "freshness dataflow shows every output is an input element (or the documented copy) and no element is "
                "mutated; per-call CobaRandom(self._seed); abstract evaluation of Where's peek size over the four "
                "None-patterns of (min,max); nullable constructor parameters are never operands of an order comparison "
                "without a None test on the path; _in_min_max is two-sided; Batch and Unbatch index every key uniformly.")
+EXPLANATION += " R1 also: pipes.Cache replay-buffer protocol; R2: one fresh generator per filter() call; R7: Sort keeps the caller's key order."
 
 EF = "coba/environments/filters.py"
 PF = "coba/pipes/filters.py"
